@@ -54,6 +54,7 @@ func permHook(n int) uint64 {
 }
 
 func attach(p *Plan) {
+	opSteps = 0
 	permSeed, permCounter = p.Cfg.MapSeed, 0
 	simrt.Hook = countHook
 	simrt.Perm = permHook
